@@ -89,6 +89,7 @@ def chunks(tier):
         seg = SEG if tier == "quick" else 1500
         out += [("W", rel, i, min(n, i + seg)) for i in range(0, n, seg)]
         out.append(("Wb", rel))
+        out.append(("WA", rel))
     nw = int(round(0.8 / b["sa_w_step"])) + 1
     per = 2 if tier == "quick" else 3
     out += [("SA", i, min(nw, i + per)) for i in range(0, nw, per)]
@@ -294,6 +295,48 @@ def _state_W(res, rel, T, P=None, count=True):
         res.symbols["rel:" + rel] += 1
         res.outcomes["%s|point-%s-%s" % (rel, "outside" if outside else "inside", "ok" if J.ok else "VIOLATED")] += 1
     return v0
+
+
+def _state_WA(res, rel, Ts, P=None):
+    """an ARRAY of temperatures in one call (plain and with units): element-wise the scalar results, the result carrying the unit"""
+    import numpy as np
+
+    u = _U()
+    f = _water_fn(rel)
+    unit = _water_unit(rel, u)
+    pa = () if P is None else (P,)
+    pu = () if P is None else (P * u.bar,)
+    case = dict(layer="WA", rel=rel, Ts=list(Ts), P=P)
+    J = Judge(res, rel, case)
+    res.states += 1
+    res.nontrivial += 1
+    res.transitions += 2
+    scal = []
+    for T in Ts:
+        v, _, _ = _call(res, lambda: f(T, *pa, warn=False))
+        scal.append(None if _is_exc(v) else float(v))
+    if any(v is None for v in scal):
+        res.outcomes["%s|array-skipped (a scalar evaluation raises)" % rel] += 1
+        return
+    v, _, _ = _call(res, lambda: f(np.array(Ts), *pa, warn=False))
+    try:
+        arr = [float(x) for x in np.asarray(v, dtype=float).reshape(-1)]
+        ok = len(arr) == len(Ts) and all(abs(a - b) <= 1e-12 * abs(b) for a, b in zip(arr, scal))
+    except Exception:
+        arr, ok = repr(v)[:80], False
+    if not ok:
+        J.fail("array-plain", "value", "%s(array %r) = %r, scalar evaluations give %r" % (rel, list(Ts), arr, scal), arr, scal)
+    v, _, _ = _call(res, lambda: f(np.array(Ts) * u.K, *pu, units=u, warn=False))
+    try:
+        from chempy.units import to_unitless
+
+        arr = [float(x) for x in np.asarray(to_unitless(v, unit), dtype=float).reshape(-1)]
+        ok = len(arr) == len(Ts) and all(abs(a - b) <= TOL * abs(b) for a, b in zip(arr, scal))
+    except Exception as e:
+        arr, ok = "%s: %s" % (type(e).__name__, str(e)[:80]), False
+    if not ok:
+        J.fail("array-units", "value-or-dimension", "%s(array %r K, units=default_units) = %r (converted to the unit of the quantity), scalar evaluations give %r" % (rel, list(Ts), arr, scal), arr, scal)
+    res.outcomes["%s|array-%s" % (rel, "ok" if J.ok else "VIOLATED")] += 1
 
 
 def _shape(res, rel, Ta, va, Tb, vb, P):
@@ -806,6 +849,14 @@ def run_chunk(chunk, tier):
                     vn = None
                 _shape(res, rel, prev[0], prev[1], Tn, vn, P)
         res.sample(dict(layer="W", rel=rel, T_from=grid[i0], T_to=grid[min(len(grid), i1) - 1], pressures=Ps), limit=1)
+    elif kind == "WA":
+        rel = chunk[1]
+        lo, hi, _ = WATER[rel]
+        Ps = b["permittivity_P_bar"] if rel == "water_permittivity" else [None]
+        for P in Ps:
+            for Ts in ([lo + 1.0, (lo + hi) / 2], [lo + 5.0, lo + 10.0, hi - 5.0], [(lo + hi) / 2]):
+                _state_WA(res, rel, Ts, P)
+        res.sample(dict(layer="WA", rel=rel), limit=1)
     elif kind == "Wb":
         rel = chunk[1]
         lo, hi, _ = WATER[rel]
@@ -880,7 +931,9 @@ def run_chunk(chunk, tier):
 def replay(case):
     res = Result()
     layer = case["layer"]
-    if layer == "W":
+    if layer == "WA":
+        _state_WA(res, case["rel"], case["Ts"], case.get("P"))
+    elif layer == "W":
         _state_W(res, case["rel"], case["T"], case.get("P"), count=False)
     elif layer == "Wshape":
         va = _state_W(res, case["rel"], case["Ta"], case.get("P"), count=False)
